@@ -1,3 +1,9 @@
+/-
+  QV.Proofs.ServerTsig — lemmas behind property C10 (the TSIG branch of the server model):
+  `set_tsig_or_truncate`, the decision table of `tsigProcess`, the response MAC, frame lemmas for the
+  scan of the request, the split of `handle_message_with_context` into scan phase and opcode
+  dispatch, the authenticated-TSIG invariant, and the room available over TCP.
+-/
 import QV.Model.Server
 import QV.Proofs.Wire
 import QV.Proofs.Tsig
@@ -1448,6 +1454,661 @@ theorem scanPhase_post (cfg : Cfg) (tr : Transport) (now : Nat) (r0 : Reader.Rea
       · simp [h0, h1] at h
         obtain ⟨rfl, rfl⟩ := h
         exact ⟨hn, fun q hq => by cases hq⟩
+  · cases h; exact absurd rfl hnp
+
+
+/-! ### room for the TSIG RR -/
+
+theorem parse_wire_le (b : List UInt8) (n : WName) (rest : List UInt8) (h : WName.parse b = some (n, rest)) :
+    n.wire.length ≤ 255 := by
+  unfold WName.parse at h
+  split at h
+  · dsimp only at h
+    split at h
+    · rename_i hle; cases h; simpa [Gen.MAX_WIRE_LEN] using hle
+    · cases h
+  · cases h
+
+theorem algName_wire_le (a : Writer.Alg) : (algName a).wire.length ≤ 255 := by cases a <;> decide +kernel
+
+/-- room for any TSIG RR the server may want to add: 255 + 255 octets of names, 26 + 6 fixed, 32 MAC -/
+def TsigRoom (s : State) : Prop := s.tsig = none ∧ s.arcount ≤ 1 ∧ s.cursor + 574 ≤ s.available
+
+theorem tsigFits_unsigned (s : State) (h : TsigRoom s) (kn an : WName) (hk : kn.wire.length ≤ 255)
+    (ha : an.wire.length ≤ 255) (r : ReadTsigRr) (nowT : TimeSigned) (e : Nat) :
+    TsigFits s (.unsigned an) (prepOf kn r nowT e) := by
+  obtain ⟨h0, h1, h2⟩ := h
+  refine ⟨h0, ?_, by omega⟩
+  simp only [reservedLen, unsignedLen, prepOf]
+  by_cases he : e = XR_BADTIME <;> simp only [he, ↓reduceIte] <;> omega
+
+theorem tsigFits_response (s : State) (h : TsigRoom s) (kn : WName) (hk : kn.wire.length ≤ 255)
+    (a : Writer.Alg) (mac key : List UInt8) (r : ReadTsigRr) (nowT : TimeSigned) (e : Nat) :
+    TsigFits s (.response a mac key) (prepOf kn r nowT e) := by
+  obtain ⟨h0, h1, h2⟩ := h
+  refine ⟨h0, ?_, by omega⟩
+  have := algName_wire_le a
+  have ho : algOutputSize a ≤ 32 := by cases a <;> decide
+  simp only [reservedLen, signedLen, unsignedLen, prepOf]
+  by_cases he : e = XR_BADTIME <;> simp only [he, ↓reduceIte] <;> omega
+
+/-! ### over TCP the TSIG RR always fits -/
+
+def TcClear (s : State) : Prop := getBit s Gen.TC_BYTE Gen.TC_MASK = false
+
+/-- only the RCODE octet of the header (and the stored upper RCODE bits) changed -/
+structure RcodeOnly (s s' : State) : Prop where
+  ho : HeaderOnly s s'
+  hdr : ∀ i, i ≠ Gen.RCODE_BYTE → Writer.hdr s' i = Writer.hdr s i
+
+theorem RcodeOnly.refl (s : State) : RcodeOnly s s := ⟨HeaderOnly.refl s, fun _ _ => rfl⟩
+
+theorem RcodeOnly.tc {s s' : State} (h : RcodeOnly s s') (ht : TcClear s) : TcClear s' := by
+  unfold TcClear getBit at *
+  rw [h.hdr Gen.TC_BYTE (by decide)]; exact ht
+
+theorem setRcode_rcodeOnly (rc : Nat) (s : State) : RcodeOnly s (setRcode rc s).2 := by
+  unfold Writer.setRcode Writer.setHdr
+  by_cases h3 : Gen.RCODE_BYTE < s.octets.size
+  · simp only [bind, h3, dite_true, M.modify]
+    refine ⟨?_, ?_⟩
+    · cases he : s.edns <;> constructor <;> simp [he]
+    · intro i hi
+      cases he : s.edns <;> simp [Writer.hdr, Ne.symm hi]
+  · simp only [bind, h3, dite_false]
+    exact RcodeOnly.refl s
+
+theorem setExtendedRcode_rcodeOnly (raw : Nat) (s : State) : RcodeOnly s (Writer.unwrap (setExtendedRcode raw) s).2 := by
+  unfold Writer.unwrap Writer.setExtendedRcode Writer.setHdr
+  cases he : s.edns with
+  | none => exact RcodeOnly.refl s
+  | some e =>
+    by_cases hr : raw > 4095
+    · simp only [hr, if_true]; exact RcodeOnly.refl s
+    · by_cases h3 : Gen.RCODE_BYTE < s.octets.size
+      · simp only [hr, if_false, h3, dite_true]
+        refine ⟨by constructor <;> simp [he], ?_⟩
+        intro i hi
+        simp [Writer.hdr, Ne.symm hi]
+      · simp only [hr, if_false, h3, dite_false]
+        exact RcodeOnly.refl s
+
+/-- what a TSIG step leaves behind when there is room: the TSIG recorded, nothing truncated -/
+def TsigAdded (s s' : State) : Prop :=
+  TcClear s' ∧ s'.octets.size = s.octets.size ∧ s'.cursor = s.cursor ∧ s'.tsig.isSome = true
+
+theorem Responds.added {s : State} {rc : Nat} {mode : TsigMode} {rr : TsigRr} {res : Option Reader.Reader}
+    {out : Out WriterErr (Option Reader.Reader) × State} (h : Responds s rc mode rr res out)
+    (hf : TsigFits s mode rr) (ht : TcClear s) : TsigAdded s out.2 := by
+  obtain ⟨s1, f1, _, k1, h⟩ := h
+  rcases h with ⟨_, h⟩ | ⟨hnf, _⟩
+  · rw [h]
+    refine ⟨?_, f1.size, f1.cursor, rfl⟩
+    have : TcClear s1 := (RcodeOnly.tc ⟨f1, k1⟩ ht)
+    exact this
+  · exact absurd hf hnf
+
+theorem tsigBadKey_tcp (s : State) (hs : 12 ≤ s.octets.size) (hroom : TsigRoom s) (ht : TcClear s)
+    (r : ReadTsigRr) (nowT : TimeSigned) (hnp : (tsigBadKey r nowT s).1 ≠ .panic) :
+    TsigAdded s (tsigBadKey r nowT s).2 := by
+  rcases hka : WName.parse r.algorithm with _ | ⟨an, rest⟩
+  · exfalso; apply hnp
+    obtain ⟨s1, h1, _⟩ := setRcode_spec (RC "NOTAUTH") (by decide) s hs
+    simp [Server.tsigBadKey, bind, h1, hka, M.panic]
+  · rcases hkk : preparedFromRead r nowT (XRC "BADKEY") with _ | prep
+    · exfalso; apply hnp
+      obtain ⟨s1, h1, _⟩ := setRcode_spec (RC "NOTAUTH") (by decide) s hs
+      cases rest <;> simp [Server.tsigBadKey, bind, h1, hka, hkk, M.panic]
+    · cases rest with
+      | cons a t =>
+        exfalso; apply hnp
+        obtain ⟨s1, h1, _⟩ := setRcode_spec (RC "NOTAUTH") (by decide) s hs
+        simp [Server.tsigBadKey, bind, h1, hka, hkk, M.panic]
+      | nil =>
+        -- the key name parsed, too
+        have hkn : ∃ kn, WName.parse r.keyName = some (kn, []) := by
+          apply Classical.byContradiction
+          intro hno
+          rw [preparedFromRead_none r nowT _ (fun kn hk => hno ⟨kn, hk⟩)] at hkk
+          cases hkk
+        obtain ⟨kn, hkn⟩ := hkn
+        exact (tsigBadKey_spec s hs r nowT kn an hkn hka).added
+          (tsigFits_unsigned s hroom kn an (parse_wire_le _ _ _ hkn) (parse_wire_le _ _ _ hka) r nowT 17) ht
+
+theorem tsigVerifyAndWrite_tcp (hm : Algorithm → Octets → Octets → Octets) (s : State) (hs : 12 ≤ s.octets.size)
+    (hroom : TsigRoom s) (ht : TcClear s) (r : ReadTsigRr) (msg : List UInt8) (alg : Hmac.Alg)
+    (secret : List UInt8) (nowT : TimeSigned) (r' : Reader.Reader)
+    (hnp : (tsigVerifyAndWrite hm r msg alg secret nowT r' s).1 ≠ .panic) :
+    TsigAdded s (tsigVerifyAndWrite hm r msg alg secret nowT r' s).2 := by
+  by_cases hk : ∃ kn, WName.parse r.keyName = some (kn, [])
+  · obtain ⟨kn, hkn⟩ := hk
+    have hkl := parse_wire_le _ _ _ hkn
+    have tbl := tsigVerifyAndWrite_spec hm s hs r msg alg secret nowT r' kn hkn
+    rcases hv : verifyRequest hm r msg alg secret nowT with u | e | _
+    · cases u
+      rw [hv] at tbl
+      exact tbl.added (tsigFits_response s hroom kn hkl _ _ _ r nowT 0) ht
+    · rw [hv] at tbl
+      cases e <;> dsimp only at tbl
+      · exact tbl.added (tsigFits_unsigned s hroom kn _ hkl (algName_wire_le _) r nowT 16) ht
+      · exact tbl.added (tsigFits_response s hroom kn hkl _ _ _ r nowT 18) ht
+      · exact tbl.added (tsigFits_unsigned s hroom kn _ hkl (algName_wire_le _) r nowT 16) ht
+    · rw [hv] at tbl
+      exact absurd tbl hnp
+  · exfalso; apply hnp
+    have hn : ∀ kn, WName.parse r.keyName ≠ some (kn, []) := fun kn hkn => hk ⟨kn, hkn⟩
+    unfold Server.tsigVerifyAndWrite
+    split
+    · rw [preparedFromRead_none r nowT _ hn]
+    · rfl
+
+theorem tsigProcess_tcp (hm : Algorithm → Octets → Octets → Octets) (keys : List Key) (s : State)
+    (hs : 12 ≤ s.octets.size) (hroom : TsigRoom s) (ht : TcClear s) (r : ReadTsigRr) (msg : List UInt8)
+    (nowT : TimeSigned) (r' : Reader.Reader) (hnp : (tsigProcess hm keys nowT r msg r' s).1 ≠ .panic) :
+    TsigAdded s (tsigProcess hm keys nowT r msg r' s).2 := by
+  unfold Server.tsigProcess at hnp ⊢
+  cases ha : Algorithm.fromName r.algorithm with
+  | none =>
+    simp only [ha] at hnp ⊢
+    exact tsigBadKey_tcp s hs hroom ht r nowT hnp
+  | some alg =>
+    simp only [ha] at hnp ⊢
+    cases hk : findKey keys r.keyName alg with
+    | none =>
+      simp only [hk] at hnp ⊢
+      exact tsigBadKey_tcp s hs hroom ht r nowT hnp
+    | some key =>
+      simp only [hk] at hnp ⊢
+      exact tsigVerifyAndWrite_tcp hm s hs hroom ht r msg alg key.secret nowT r' hnp
+
+/-- TCP: nothing but the OPT reservation has been taken from the 65535 octets -/
+def RoomT (s : State) : Prop :=
+  s.tsig = none ∧ ((s.edns.isSome = false ∧ s.available = 65535 ∧ s.arcount = 0) ∨
+                   (s.edns.isSome = true ∧ s.available = 65524 ∧ s.arcount = 1))
+
+/-- invariant of the scan over TCP at record index `i` of `ar`: nothing truncated, the question is
+    short, and either the TSIG RR has been recorded (then the scan is past the last record) or
+    there is still room for it -/
+def TcpInv (ar i : Nat) (s : State) : Prop :=
+  12 ≤ s.octets.size ∧ TcClear s ∧ s.cursor ≤ 273 ∧ ((s.tsig.isSome = true ∧ ar ≤ i) ∨ RoomT s)
+
+theorem RoomT.tsigRoom {s : State} (h : RoomT s) (hc : s.cursor ≤ 273) : TsigRoom s := by
+  obtain ⟨h0, h | h⟩ := h
+  · exact ⟨h0, by omega, by omega⟩
+  · exact ⟨h0, by omega, by omega⟩
+
+theorem TcpInv.mono {ar i j : Nat} {s : State} (h : TcpInv ar i s) (hij : i ≤ j) : TcpInv ar j s := by
+  obtain ⟨a, b, c, d⟩ := h
+  refine ⟨a, b, c, ?_⟩
+  rcases d with ⟨d1, d2⟩ | d
+  · exact Or.inl ⟨d1, by omega⟩
+  · exact Or.inr d
+
+theorem TcpInv.rcodeOnly {ar i : Nat} {s s' : State} (h : TcpInv ar i s) (f : RcodeOnly s s') : TcpInv ar i s' := by
+  obtain ⟨a, b, c, d⟩ := h
+  refine ⟨by rw [f.ho.size]; exact a, f.tc b, by rw [f.ho.cursor]; exact c, ?_⟩
+  rcases d with ⟨d1, d2⟩ | ⟨d0, d⟩
+  · exact Or.inl ⟨by rw [f.ho.tsig]; exact d1, d2⟩
+  · refine Or.inr ⟨by rw [f.ho.tsig]; exact d0, ?_⟩
+    rw [f.ho.edns, f.ho.available, f.ho.arcount]; exact d
+
+theorem TcpInv.setEdns {ar i : Nat} {s : State} (p : Nat) (h : TcpInv ar i s) : TcpInv ar i (setEdns p s).2 := by
+  unfold Writer.setEdns
+  split
+  · exact h
+  · split
+    · exact h
+    · split
+      · exact h
+      · rename_i he _ _
+        obtain ⟨a, b, c, d⟩ := h
+        refine ⟨a, b, c, ?_⟩
+        rcases d with ⟨d1, d2⟩ | ⟨d0, d⟩
+        · exact Or.inl ⟨d1, d2⟩
+        · refine Or.inr ⟨d0, Or.inr ?_⟩
+          rcases d with ⟨e1, e2, e3⟩ | ⟨e1, _, _⟩
+          · simp only [Option.isSome_some, true_and]
+            simp only [Gen.OPT_RECORD_SIZE]; omega
+          · exact absurd e1 he
+
+theorem handleTsig_tcp (cfg : Cfg) (now : Nat) (p : Reader.PeekRr) (raw ar : Nat) (har : 1 ≤ ar) (s : State)
+    (h : TcpInv ar (ar - 1) s) (hnp : (handleTsig cfg now p raw s).1 ≠ .panic) :
+    TcpInv ar ar (handleTsig cfg now p raw s).2 := by
+  have hstop : TcpInv ar ar ((Writer.setRcode (RC "FORMERR") >>= fun _ => (Pure.pure none : M (Option Reader.Reader))) s).2 := by
+    have f := setRcode_rcodeOnly (RC "FORMERR") s
+    have := (h.mono (by omega : ar - 1 ≤ ar)).rcodeOnly f
+    simp only [bind]
+    split <;> rename_i heq <;> rw [heq] at this <;> exact this
+  have hsame : TcpInv ar ar s := h.mono (by omega)
+  revert hnp
+  unfold Server.handleTsig
+  rcases h1 : p.messageToRr with m | e | _ <;> (try dsimp only)
+  · rcases h2 : Reader.PeekRr.parse rdRead p with ⟨pr, r'⟩
+    rcases pr with rr | e | _ <;> (try dsimp only)
+    · by_cases h3 : raw ≠ 0
+      · rw [if_pos h3]; exact fun _ => hstop
+      · rw [if_neg h3]
+        rcases h4 : ReadTsigRr.tryFrom rr.owner rr.rrType rr.cls rr.ttl rr.rdata with t | e | _ <;> (try dsimp only)
+        · rcases h5 : TimeSigned.tryFromUnix now with _ | nowT <;> (try dsimp only)
+          · exact fun _ => hsame
+          · intro hnp
+            obtain ⟨a, b, c, d⟩ := h
+            rcases d with ⟨_, d2⟩ | d
+            · omega
+            · obtain ⟨t1, t2, t3, t4⟩ := tsigProcess_tcp realHmac cfg.keys s a (d.tsigRoom c) b t m.toList nowT r' hnp
+              exact ⟨by rw [t2]; exact a, t1, by rw [t3]; exact c, Or.inl ⟨t4, Nat.le_refl _⟩⟩
+        · cases e <;> (try dsimp only)
+          · exact fun _ => hstop
+          · exact fun _ => hsame
+        · exact fun _ => hsame
+    · exact fun _ => hstop
+    · exact fun _ => hsame
+  · exact fun _ => hsame
+  · exact fun _ => hsame
+
+theorem stop_tcp {α} {ar i : Nat} {s : State} (h : TcpInv ar i s) (hi : i ≤ ar) (rc : Nat) :
+    TcpInv ar ar ((Writer.setRcode rc >>= fun _ => (Pure.pure none : M (Option α))) s).2 := by
+  have f := setRcode_rcodeOnly rc s
+  have := (h.mono hi).rcodeOnly f
+  simp only [bind]
+  split <;> rename_i heq <;> rw [heq] at this <;> exact this
+
+theorem xstop_tcp {α} {ar i : Nat} {s : State} (h : TcpInv ar i s) (hi : i ≤ ar) (raw : Nat) :
+    TcpInv ar ar ((Writer.unwrap (Writer.setExtendedRcode raw) >>= fun _ => (Pure.pure none : M (Option α))) s).2 := by
+  have f := setExtendedRcode_rcodeOnly raw s
+  have := (h.mono hi).rcodeOnly f
+  simp only [bind]
+  split <;> rename_i heq <;> rw [heq] at this <;> exact this
+
+theorem optTail_tcp (lim : Nat) (c1 c2 : Prop) [Decidable c1] [Decidable c2] (k : M (Option ScanSt))
+    (ar i : Nat) (hi : i ≤ ar) (s1 : State) (h : TcpInv ar i s1)
+    (hk : (k s1).1 ≠ .panic → TcpInv ar ar (k s1).2) :
+    ((do
+      if Transport.tcp = Transport.udp then Writer.setLimit lim else Pure.pure ()
+      if c1 then do
+        Writer.unwrap (Writer.setExtendedRcode (XRC "FORMERR"))
+        Pure.pure none
+      else if c2 then do
+        Writer.unwrap (Writer.setExtendedRcode (XRC "BADVERSBADSIG"))
+        Pure.pure none
+      else k : M (Option ScanSt)) s1).1 ≠ .panic →
+    TcpInv ar ar ((do
+      if Transport.tcp = Transport.udp then Writer.setLimit lim else Pure.pure ()
+      if c1 then do
+        Writer.unwrap (Writer.setExtendedRcode (XRC "FORMERR"))
+        Pure.pure none
+      else if c2 then do
+        Writer.unwrap (Writer.setExtendedRcode (XRC "BADVERSBADSIG"))
+        Pure.pure none
+      else k : M (Option ScanSt)) s1).2 := by
+  have htr : ¬ (Transport.tcp = Transport.udp) := by decide
+  by_cases h1 : c1 <;> by_cases h2 : c2 <;> simp only [htr, h1, h2, ↓reduceIte, bind, Pure.pure]
+  · exact fun _ => xstop_tcp h hi _
+  · exact fun _ => xstop_tcp h hi _
+  · exact fun _ => xstop_tcp h hi _
+  · exact hk
+
+/-- **over TCP the scan of the additional section never truncates**: with 65535 octets and a
+    question of at most 261 octets there is room for OPT and any TSIG RR (≤ 542 octets), so
+    `set_tsig_or_truncate` always takes its first branch and TC stays clear -/
+theorem scanAr_tcp (cfg : Cfg) (now ar : Nat) :
+    ∀ (n index : Nat) (st : ScanSt) (s : State), index + n = ar → TcpInv ar index s →
+      (scanAr cfg .tcp now ar n index st s).1 ≠ .panic → TcpInv ar ar (scanAr cfg .tcp now ar n index st s).2 := by
+  intro n
+  induction n with
+  | zero =>
+    intro index st s hsum h _
+    unfold Server.scanAr
+    exact h.mono (by omega)
+  | succ n ih =>
+    intro index st s hsum h
+    have hi : index ≤ ar := by omega
+    have hsame : TcpInv ar ar s := h.mono hi
+    unfold Server.scanAr
+    rcases h1 : Reader.peekRr st.r with p | e | _ <;> (try dsimp only)
+    · rcases h2 : p.rrType with t | e | _ <;> (try dsimp only)
+      · by_cases hopt : t = T "OPT"
+        · rw [if_pos hopt]
+          by_cases hseen : st.seenOpt
+          · rw [if_pos hseen]; exact fun _ => stop_tcp h hi _
+          · rw [if_neg hseen]
+            have hE := TcpInv.setEdns (ar := ar) (i := index) cfg.payload h
+            rcases h3 : setEdns cfg.payload s with ⟨re, s1⟩
+            rw [h3] at hE
+            rcases re with u | e | _ <;> (try dsimp only)
+            · rcases h4 : p.rawTtl with raw | e | _ <;> (try dsimp only)
+              · rcases h5 : Reader.PeekRr.parse rdRead p with ⟨pr, r'⟩
+                rcases pr with opt | e | _ <;> (try dsimp only)
+                · exact optTail_tcp _ _ _ _ ar index hi s1 hE (ih (index + 1) _ s1 (by omega) (hE.mono (by omega)))
+                · exact fun _ => stop_tcp hE hi _
+                · exact fun _ => hE.mono hi
+              · exact fun _ => hE.mono hi
+              · exact fun _ => hE.mono hi
+            · exact fun _ => stop_tcp hE hi _
+            · exact fun _ => hE.mono hi
+        · rw [if_neg hopt]
+          by_cases htsig : t = T "TSIG"
+          · rw [if_pos htsig]
+            by_cases hidx : index ≠ ar - 1
+            · rw [if_pos hidx]; exact fun _ => stop_tcp h hi _
+            · rw [if_neg hidx]
+              have hidx' : index = ar - 1 := Classical.not_not.mp hidx
+              rcases h4 : p.rawTtl with raw | e | _ <;> (try dsimp only)
+              · have hT := handleTsig_tcp cfg now p raw ar (by omega) s (hidx' ▸ h)
+                rcases h6 : handleTsig cfg now p raw s with ⟨rt, s1⟩
+                rw [h6] at hT
+                rcases rt with o | e | _ <;> (try dsimp only)
+                · cases o with
+                  | none => exact fun _ => hT (by simp)
+                  | some r' =>
+                    dsimp only
+                    exact ih (index + 1) _ s1 (by omega) ((hT (by simp)).mono (by omega)) |> fun f hnp => f hnp
+                · exact fun _ => hT (by simp)
+                · exact fun hnp => absurd rfl hnp
+              · exact fun _ => hsame
+              · exact fun _ => hsame
+          · rw [if_neg htsig]
+            exact ih (index + 1) _ s (by omega) (h.mono (by omega))
+      · exact fun _ => hsame
+      · exact fun _ => hsame
+    · exact fun _ => stop_tcp h hi _
+    · exact fun _ => hsame
+
+/-! ### writing the question does not touch what lies below the cursor (in particular the header) -/
+
+theorem writeAt_low (a : Bytes) (pos : Nat) (d : List UInt8) (i : Nat) (hi : i < pos) :
+    (writeAt a pos d).getD i 0 = a.getD i 0 := by
+  induction d generalizing a pos with
+  | nil => rfl
+  | cons b bs ih =>
+    unfold writeAt
+    rw [ih _ _ (by omega)]
+    have hne : pos ≠ i := by omega
+    simp only [Array.getD_eq_getD_getElem?, Array.getElem?_setIfInBounds_ne hne]
+
+/-- the cursor only advances and the octets below the old cursor are unchanged -/
+def Low (s s' : State) : Prop := s.cursor ≤ s'.cursor ∧ ∀ i, i < s.cursor → s'.octets.getD i 0 = s.octets.getD i 0
+
+theorem Low.refl (s : State) : Low s s := ⟨Nat.le_refl _, fun _ _ => rfl⟩
+theorem Low.trans {a b c : State} (h1 : Low a b) (h2 : Low b c) : Low a c :=
+  ⟨Nat.le_trans h1.1 h2.1, fun i hi => (h2.2 i (by have := h1.1; omega)).trans (h1.2 i hi)⟩
+
+def LW {α} (m : M α) : Prop := ∀ s, Low s (m s).2
+
+theorem LW.pure {α} (a : α) : LW (Pure.pure a : M α) := fun s => Low.refl s
+
+theorem LW.bind {α β} {x : M α} {f : α → M β} (hx : LW x) (hf : ∀ a, LW (f a)) : LW (x >>= f) := by
+  intro s
+  show Low s ((match x s with
+    | (.ok a, s') => f a s'
+    | (.err e, s') => (.err e, s')
+    | (.panic, s') => (.panic, s')).2)
+  have h1 := hx s
+  rcases hxs : x s with ⟨r, s1⟩
+  rw [hxs] at h1
+  cases r with
+  | ok a => exact h1.trans (hf a s1)
+  | err e => exact h1
+  | panic => exact h1
+
+theorem LW.tryPush (d : List UInt8) : LW (tryPush d) := by
+  intro s; unfold Writer.tryPush Writer.write
+  by_cases h1 : s.available < s.cursor
+  · rw [if_pos h1]; exact Low.refl s
+  · rw [if_neg h1]
+    by_cases h2 : s.available - s.cursor ≥ d.length
+    · rw [if_pos h2]
+      by_cases h3 : s.cursor + d.length ≤ s.octets.size
+      · rw [if_pos h3]
+        exact ⟨by simp, fun i hi => writeAt_low _ _ _ i hi⟩
+      · rw [if_neg h3]; exact Low.refl s
+    · rw [if_neg h2]; exact Low.refl s
+
+theorem LW.modify (f : State → State) (h : ∀ s, (f s).cursor = s.cursor ∧ (f s).octets = s.octets) : LW (M.modify f) :=
+  fun s => ⟨by simp [M.modify, (h s).1], fun i _ => by simp [M.modify, (h s).2]⟩
+
+theorem LW.ghostLabels (pos : Nat) (ls : List Label) (b : Bool) : LW (ghostLabels pos ls b) :=
+  LW.modify _ (fun _ => ⟨rfl, rfl⟩)
+
+theorem LW.setCtx (c : NameCtx) : LW (setCtx c) := LW.modify _ (fun _ => ⟨rfl, rfl⟩)
+
+theorem LW.pushPointer (p : Nat) : LW (pushPointer p) := by
+  intro s; unfold Writer.pushPointer Writer.tryPushU16
+  have h := LW.tryPush (u16be (49152 + p)) s
+  split
+  · rename_i s' heq; rw [heq] at h; exact h
+  · rename_i r hne; exact h
+
+theorem LW.writeUncompressedName (n : WName) : LW (writeUncompressedName n) := by
+  intro s; unfold Writer.writeUncompressedName
+  have h := LW.tryPush n.wire s
+  dsimp only
+  split
+  · rename_i s' heq; rw [heq] at h
+    exact h.trans (LW.ghostLabels s.cursor n.labels true s')
+  · rename_i e s' heq; rw [heq] at h; exact h
+  · rename_i s' heq; rw [heq] at h; exact h
+
+theorem LW.writeCompressedUnhintedName (n : WName) : LW (writeCompressedUnhintedName n) := by
+  intro s; unfold Writer.writeCompressedUnhintedName
+  split
+  · exact Low.refl s
+  · exact Low.refl s
+  · exact LW.writeUncompressedName n s
+  · rename_i m hm
+    split
+    · have h := LW.pushPointer m.priorPointer s
+      split
+      · rename_i s' heq; rw [heq] at h; exact h
+      · rename_i e s' heq; rw [heq] at h; exact h
+      · rename_i s' heq; rw [heq] at h; exact h
+    · dsimp only
+      have h := LW.tryPush (n.wireTo m.startColumn) s
+      split
+      · rename_i s1 heq; rw [heq] at h
+        have g := LW.ghostLabels s.cursor (n.labels.take m.startColumn) false s1
+        have p := LW.pushPointer m.priorPointer (Writer.ghostLabels s.cursor (n.labels.take m.startColumn) false s1).2
+        have f12 := h.trans g
+        split
+        · rename_i s3 heq3; rw [heq3] at p; exact f12.trans p
+        · rename_i e s3 heq3; rw [heq3] at p; exact f12.trans p
+        · rename_i s3 heq3; rw [heq3] at p; exact f12.trans p
+      · rename_i e s1 heq; rw [heq] at h; exact h
+      · rename_i s1 heq; rw [heq] at h; exact h
+
+theorem LW.writeUnhintedName (n : WName) : LW (writeUnhintedName n) := by
+  intro s; unfold Writer.writeUnhintedName
+  split
+  · exact LW.writeCompressedUnhintedName n s
+  · exact LW.writeUncompressedName n s
+
+theorem LW.questionBlock (qname : WName) (qtype qclass : Nat) :
+    LW (do
+        Writer.setCtx .qname
+        let p ← Writer.writeUnhintedName qname
+        Writer.setCtx .none
+        let st ← M.get
+        if st.qdcount = 0 then M.modify fun s => { s with qname := p }
+        Writer.tryPushU16 qtype
+        Writer.tryPushU16 qclass : M Unit) := by
+  refine LW.bind (LW.setCtx _) fun _ => LW.bind (LW.writeUnhintedName qname) fun p =>
+    LW.bind (LW.setCtx _) fun _ => LW.bind (fun s => Low.refl s) fun st => ?_
+  by_cases h : st.qdcount = 0
+  · simp only [h, if_true]
+    exact LW.bind (LW.modify _ (fun _ => ⟨rfl, rfl⟩)) fun _ => LW.bind (LW.tryPush _) fun _ => LW.tryPush _
+  · simp only [h, if_false]
+    first
+      | exact LW.bind (LW.pure _) fun _ => LW.bind (LW.tryPush _) fun _ => LW.tryPush _
+      | exact LW.bind (LW.tryPush _) fun _ => LW.tryPush _
+
+/-- `add_question` leaves the octets below the cursor (the header) alone, whatever its outcome -/
+theorem addQuestion_low (qn : WName) (qt qc : Nat) (s : State) (i : Nat) (hi : i < s.cursor) :
+    (addQuestion qn qt qc s).2.octets.getD i 0 = s.octets.getD i 0 := by
+  unfold Writer.addQuestion
+  split
+  · rfl
+  · split
+    · rfl
+    · have hb := LW.questionBlock qn qt qc s
+      unfold Writer.withRollback
+      generalize (Writer.setCtx NameCtx.qname >>= _) s = res at hb ⊢
+      rcases res with ⟨r, s1⟩
+      rcases r with u | e | _ <;> exact hb.2 i hi
+
+/-- a writer as `handle_message` sets it up over TCP: header only, 65535 octets, nothing reserved -/
+def FreshTcp (s : State) : Prop := 12 ≤ s.octets.size ∧ TcClear s ∧ s.cursor = 12 ∧ RoomT s
+
+theorem addQ_tcp (ar : Nat) (qn : WName) (hq : qn.wire.length ≤ 255) (qt qc : Nat) (s : State) (hf : FreshTcp s)
+    (r : Out WriterErr Bool) (s1 : State)
+    (h : (match addQuestion qn qt qc s with
+          | (.ok (), s') => (.ok true, s')
+          | (.err _, s') => (do setRcode (RC "SERVFAIL"); pure false : M Bool) s'
+          | (.panic, s') => (.panic, s')) = (r, s1)) (hnp : r ≠ .panic) : TcpInv ar 0 s1 := by
+  obtain ⟨hsz, htc, hcur, hroom⟩ := hf
+  obtain ⟨hok, herr⟩ := addQuestion_spec qn qt qc s
+  have hlow := addQuestion_low qn qt qc s Gen.TC_BYTE (by rw [hcur]; decide)
+  rcases ha : addQuestion qn qt qc s with ⟨ra, s2⟩
+  rw [ha] at h hlow
+  have htc2 : TcClear s2 := by
+    unfold TcClear getBit Writer.hdr at *
+    rw [hlow]; exact htc
+  have hroom2 : Room s s2 → RoomT s2 := fun rm => by
+    obtain ⟨h0, hd⟩ := hroom
+    refine ⟨by rw [rm.tsig]; exact h0, ?_⟩
+    rw [rm.edns, rm.available, rm.arcount]; exact hd
+  rcases ra with u | e | _
+  · cases u
+    simp only at h; obtain ⟨rfl, rfl⟩ := h
+    obtain ⟨rm, _, hc⟩ := hok _ ha
+    exact ⟨by rw [rm.size]; exact hsz, htc2, by omega, Or.inr (hroom2 rm)⟩
+  · obtain ⟨rm, h1, _⟩ := herr _ _ ha
+    have inv2 : TcpInv ar 0 s2 := ⟨by rw [rm.size]; exact hsz, htc2, by omega, Or.inr (hroom2 rm)⟩
+    have f := setRcode_rcodeOnly (RC "SERVFAIL") s2
+    have inv3 := inv2.rcodeOnly f
+    simp only [bind] at h
+    rcases hr : setRcode (RC "SERVFAIL") s2 with ⟨rr, s3⟩
+    rw [hr] at h inv3
+    rcases rr with u | e | _ <;> simp [pure] at h <;> obtain ⟨rfl, rfl⟩ := h
+    · exact inv3
+    · exact inv3
+    · exact absurd rfl hnp
+  · simp only at h; obtain ⟨rfl, rfl⟩ := h
+    exact absurd rfl hnp
+
+theorem TcpInv.tc {ar i : Nat} {s : State} (h : TcpInv ar i s) : TcClear s := h.2.1
+
+theorem scanTail_tcp (cfg : Cfg) (now an ns ar : Nat) (question : Option (WName × Nat × Nat))
+    (r1 : Reader.Reader) (addQ : M Bool) (s : State)
+    (hq : ∀ r s1, addQ s = (r, s1) → r ≠ .panic → TcpInv ar 0 s1)
+    (out : Out WriterErr ScanEnd) (s' : State)
+    (h : (do
+        let okQ ← addQ
+        if !okQ then pure ScanEnd.stop
+        else
+          let r2 := Reader.setMark r1
+          match scanAnNs (an + ns) r2 with
+          | none => do setRcode (RC "FORMERR"); pure ScanEnd.stop
+          | some r3 => do
+            let st ← scanAr cfg .tcp now ar ar 0 { r := r3 }
+            match st with
+            | none => pure ScanEnd.stop
+            | some st' =>
+              if !Reader.atEom st'.r then do setRcode (RC "FORMERR"); pure ScanEnd.stop
+              else pure (ScanEnd.proceed question) : M ScanEnd) s = (out, s'))
+    (hnp : out ≠ .panic) : TcClear s' := by
+  simp only [bind] at h
+  rcases hqa : addQ s with ⟨rq, s1⟩
+  rw [hqa] at h
+  rcases rq with okQ | e | _
+  · have i1 := hq _ _ hqa (by simp)
+    cases okQ
+    · simp [pure] at h; obtain ⟨rfl, rfl⟩ := h
+      exact i1.tc
+    · simp only [Bool.not_true, Bool.false_eq_true, if_false] at h
+      rcases hsn : scanAnNs (an + ns) (Reader.setMark r1) with _ | r3
+      · simp only [hsn, bind] at h
+        have f := setRcode_rcodeOnly (RC "FORMERR") s1
+        rcases hr : setRcode (RC "FORMERR") s1 with ⟨rr, s2⟩
+        rw [hr] at h f
+        rcases rr with u | e | _ <;> simp [pure] at h <;> obtain ⟨rfl, rfl⟩ := h
+        · exact f.tc i1.tc
+        · exact f.tc i1.tc
+        · exact absurd rfl hnp
+      · simp only [hsn, bind] at h
+        have hsc := scanAr_tcp cfg now ar ar 0 { r := r3 } s1 (by omega) i1
+        rcases hs2 : scanAr cfg .tcp now ar ar 0 { r := r3 } s1 with ⟨rs, s2⟩
+        rw [hs2] at h hsc
+        rcases rs with st | e | _
+        · have i2 := hsc (by simp)
+          cases st with
+          | none =>
+            simp [pure] at h; obtain ⟨rfl, rfl⟩ := h
+            exact i2.tc
+          | some st' =>
+            by_cases he : Reader.atEom st'.r
+            · simp [he, pure] at h; obtain ⟨rfl, rfl⟩ := h
+              exact i2.tc
+            · have f := setRcode_rcodeOnly (RC "FORMERR") s2
+              rcases hr : setRcode (RC "FORMERR") s2 with ⟨rr, s3⟩
+              rw [hr] at f
+              rcases rr with u | e | _ <;> simp [he, hr, pure, bind] at h <;> obtain ⟨rfl, rfl⟩ := h
+              · exact f.tc i2.tc
+              · exact f.tc i2.tc
+              · exact absurd rfl hnp
+        · have i2 := hsc (by simp)
+          simp at h; obtain ⟨rfl, rfl⟩ := h
+          exact i2.tc
+        · simp at h; obtain ⟨rfl, rfl⟩ := h
+          exact absurd rfl hnp
+  · have i1 := hq _ _ hqa (by simp)
+    simp at h; obtain ⟨rfl, rfl⟩ := h
+    exact i1.tc
+  · simp at h; obtain ⟨rfl, rfl⟩ := h
+    exact absurd rfl hnp
+
+/-- **Over TCP the scan phase never sets TC**: from the writer `handle_message` sets up over TCP,
+    whatever the request and the key set, the TSIG RR of every reply fits
+    (question ≤ 12 + 255 + 6, OPT 11, TSIG RR ≤ 255 + 255 + 64 < 65535), so the truncation
+    branch of `set_tsig_or_truncate` is never taken. -/
+theorem scanPhase_tcp (cfg : Cfg) (now : Nat) (r0 : Reader.Reader) (s : State) (hf : FreshTcp s)
+    (out : Out WriterErr ScanEnd) (s' : State) (h : scanPhase cfg .tcp now r0 s = (out, s')) (hnp : out ≠ .panic) :
+    TcClear s' := by
+  have hinv : ∀ ar, TcpInv ar 0 s := fun ar => ⟨hf.1, hf.2.1, by rw [hf.2.2.1]; omega, Or.inr hf.2.2.2⟩
+  unfold scanPhase at h
+  split at h
+  · rename_i qd an ns ar opcode hqd han hns har hop
+    by_cases h0 : qd = 0
+    · simp only [h0, if_true] at h
+      refine scanTail_tcp cfg now an ns ar none r0 _ s ?_ out s' h hnp
+      intro r s1 hr _
+      cases hr
+      exact hinv ar
+    · by_cases h1 : qd = 1
+      · simp only [h0, h1, if_true, if_false] at h
+        rcases hrq : Reader.readQuestion r0 with ⟨rq, r1⟩
+        rw [hrq] at h
+        rcases rq with q | e | _
+        · rcases hp : WName.parse q.qname with _ | ⟨qn, rest⟩
+          · simp [hp] at h; exact absurd h.1.symm hnp
+          · cases rest with
+            | nil =>
+              simp only [hp] at h
+              refine scanTail_tcp cfg now an ns ar (some (qn, q.qtype, q.qclass)) r1 _ s ?_ out s' h hnp
+              intro r s1 hr hnp1
+              exact addQ_tcp ar qn (parse_wire_le _ _ _ hp) q.qtype q.qclass s hf r s1 hr hnp1
+            | cons a t => simp [hp] at h; exact absurd h.1.symm hnp
+        · simp only [bind] at h
+          have f := setRcode_rcodeOnly 1 s
+          rcases hr : setRcode 1 s with ⟨rr, s3⟩
+          rw [hr] at f
+          rcases rr with u | e | _ <;> simp [hr, pure, rc_formerr] at h <;> obtain ⟨rfl, rfl⟩ := h
+          · exact f.tc hf.2.1
+          · exact f.tc hf.2.1
+          · exact absurd rfl hnp
+        · simp at h; exact absurd h.1.symm hnp
+      · simp [h0, h1] at h
+        obtain ⟨rfl, rfl⟩ := h
+        exact hf.2.1
   · cases h; exact absurd rfl hnp
 
 
